@@ -34,12 +34,12 @@ var plans = map[string]*plan{
 		Level: "exploration",
 		Rule: "field records of all 14 packet types are built through the public setters and compared byte for byte with an independent reference encoder, decoded back and re-encoded; " +
 			"boundary cross product (string/payload lengths 0/1/127/128/16383/16384/65535, remaining length at every varint edge, 1..1000 filters, all flag combinations, ids 1/255/256/65535) plus seeded random records; " +
-			"every accepted byte string (valid, valid+trailing bytes, bit-flipped) must re-encode verbatim; >400000 consecutive automatic packet ids (a full 16-bit wrap per kind). " +
+			"every accepted byte string (valid, valid+trailing bytes, bit-flipped) must re-encode verbatim; >400000 consecutive automatic packet ids (a full 16-bit wrap per kind), and 2/4/8/16 goroutines drawing automatic ids at once through 160 wraps each (1280 wraps per quick run) (every packet Len() bytes, id non-zero, strict decode). " +
 			"A case is non-trivial and distinct by its class key: packet type x flag combination x length class of every variable field x varint size (build/...), or type x input kind x exact/trailing (accepted/...).",
-		Quick:          []batchSpec{{Test: "TestC03", N: 6, Timeout: 10 * m}},
-		Thorough:       []batchSpec{{Test: "TestC03", N: 16, Timeout: 40 * m}},
+		Quick:          []batchSpec{{Test: "TestC03", N: 6, Timeout: 10 * m}, {Test: "TestC03CounterConc", N: 8, Timeout: 10 * m}},
+		Thorough:       []batchSpec{{Test: "TestC03", N: 16, Timeout: 40 * m}, {Test: "TestC03CounterConc", N: 8, Timeout: 40 * m}},
 		EvalStats:      []string{"c03.build", "c03.accept.tried", "c03.counter.encodes"},
-		Floors:         map[string]int64{"c03.build": 15000, "c03.accept.accepted": 20000, "c03.counter.encodes": 400000, "classes": 300},
+		Floors:         map[string]int64{"c03.build": 15000, "c03.accept.accepted": 20000, "c03.counter.encodes": 400000, "c03.counterconc.wraps": 1200, "classes": 300},
 		FloorsThorough: map[string]int64{"c03.build": 900000, "c03.accept.accepted": 1000000, "c03.counter.encodes": 400000, "classes": 1000},
 		Assumptions: []string{"the reference codec (harness/refcodec, written from the OASIS text) is correct",
 			"'built through the message API' means the value setters (SetTopic, SetPayload, SetUsername, AddTopic, ...); the raw flag setters SetUsernameFlag/SetPasswordFlag/SetWillFlag are only used together with their value"},
@@ -61,11 +61,12 @@ var plans = map[string]*plan{
 		Level: "exploration",
 		Rule: "exhaustive part: every filter of 1..4 levels over {a,b,empty,+,#} (779) is subscribed on a fresh topics.NewMemProvider() and queried with every name of 1..4 (thorough: 1..5) levels over {a,b,empty} x publish QoS 0..2; acceptance must equal filter validity, the answer must equal the MQTT 4.7 matcher with QoS min(pub,sub); Retain/Retained checked with the same relation (all plain names stored at once, and each name alone). " +
 			"history part: random histories (20..200 ops) of Subscribe/re-Subscribe/Unsubscribe(held or not)/invalid filter/Retain/clear over 4 subscribers (pointers, string, int64), 30 filters, 28 names; the full observable state (84 Subscribers queries + 30 Retained queries) is compared with a map model after every operation. " +
+			"concurrent histories: 2..8 goroutines, each with its own subscriber, run 400..1200 Subscribe/Unsubscribe calls over 10 overlapping filters while 1..3 readers query Subscribers; three untouched subscribers must appear in every lookup exactly as subscribed, every call must return what the goroutine's own model says, and at quiescence every query must equal the union of the models. " +
 			"distinct = (filter shape, name shape, verdict) for the exhaustive part, (length, #subs, #retained) buckets for histories.",
-		Quick:          []batchSpec{{Test: "TestC06", N: 16, Timeout: 15 * m}},
-		Thorough:       []batchSpec{{Test: "TestC06", N: 32, Timeout: 60 * m}},
+		Quick:          []batchSpec{{Test: "TestC06", N: 16, Timeout: 15 * m}, {Test: "TestC06Conc", N: 4, Timeout: 15 * m}},
+		Thorough:       []batchSpec{{Test: "TestC06", N: 32, Timeout: 60 * m}, {Test: "TestC06Conc", N: 8, Timeout: 60 * m}},
 		EvalStats:      []string{"c06.ex.pairs", "c06.ex.retained_pairs", "c06.hist.ops"},
-		Floors:         map[string]int64{"c06.ex.filters": 779, "c06.ex.pairs": 270000, "c06.ex.retained_pairs": 60000, "c06.hist.histories": 1500, "c06.hist.sub_queries": 5000000, "classes": 300},
+		Floors:         map[string]int64{"c06.ex.filters": 779, "c06.ex.pairs": 270000, "c06.ex.retained_pairs": 60000, "c06.hist.histories": 1500, "c06.hist.sub_queries": 5000000, "c06.conc.cases": 60, "c06.conc.lookups_during_changes": 5000, "classes": 300},
 		FloorsThorough: map[string]int64{"c06.ex.filters": 779, "c06.ex.pairs": 800000, "c06.hist.histories": 40000, "classes": 300},
 		Exhaustive:     func(r *result) bool { return false },
 		Assumptions:    []string{"spec.Match (MQTT 3.1.1 section 4.7, 20 lines) is the specification; MaxQosAllowed is left at its default 2", "exhaustive only for the stated small scope; the history part is sampling"},
@@ -73,11 +74,11 @@ var plans = map[string]*plan{
 	"C13": {
 		Level: "exploration",
 		Rule: "public API Wait/Ack/Acked of the five queues of sessions.Session (fed the ack kinds the service routes to each) against a FIFO list model. Exhaustive: every operation sequence of register(id)/ack(kind,id)/ack(unknown id)/collect up to depth 6 over ids {1,2} and depth 5 over {1,2,3} (thorough 7 and 6), each followed by a collect, on a fresh queue; the request object is mutated after Wait; returned entries are compared for order, state, byte-identical request/ack copies and completion token. " +
-			"Random: 10000-op histories with hundreds in flight (growth beyond 16, wrapped ring, id reuse). PINGREQ path with 1..3 outstanding pings. Concurrent: register/ack/collect goroutines, history checked with porcupine. distinct = op-shape of every 97th exhaustive sequence, in-flight buckets, overlap buckets.",
-		Quick:          []batchSpec{{Test: "TestC13", N: 10, Timeout: 15 * m}, {Test: "TestC13Conc", N: 4, Timeout: 10 * m}},
-		Thorough:       []batchSpec{{Test: "TestC13", N: 16, Timeout: 60 * m}, {Test: "TestC13Conc", N: 8, Timeout: 30 * m}, {Test: "TestC13Conc", N: 4, Race: true, Timeout: 30 * m}},
+			"Random: 10000-op histories with hundreds in flight (growth beyond 16, wrapped ring, id reuse). PINGREQ path with 1..3 outstanding pings. Concurrent: register/ack/collect goroutines, history checked with porcupine. Growth under an acknowledgement in progress: queue full at capacity 16/32/64 with the ring head at 8..13 positions, one in-flight request (5 positions) is acknowledged with a message whose Encode dwells while another goroutine registers one more request (the queue grows and moves every entry); afterwards all requests are acknowledged and must come back in registration order, each with its own acknowledgement bytes and token. distinct = op-shape of every 97th exhaustive sequence, in-flight buckets, overlap buckets.",
+		Quick:          []batchSpec{{Test: "TestC13", N: 10, Timeout: 15 * m}, {Test: "TestC13Conc", N: 4, Timeout: 10 * m}, {Test: "TestC13Grow", N: 4, Timeout: 10 * m}},
+		Thorough:       []batchSpec{{Test: "TestC13", N: 16, Timeout: 60 * m}, {Test: "TestC13Conc", N: 8, Timeout: 30 * m}, {Test: "TestC13Grow", N: 4, Timeout: 10 * m}, {Test: "TestC13Conc", N: 4, Race: true, Timeout: 30 * m}},
 		EvalStats:      []string{"c13.exh.sequences", "c13.rand.ops", "c13.conc.ops", "c13.ping.cases"},
-		Floors:         map[string]int64{"c13.exh.scopes_complete": 10, "c13.exh.sequences": 700000, "c13.rand.ops": 300000, "c13.rand.grew_past_256": 5, "c13.conc.histories": 250, "c13.conc.overlapping_calls": 50, "classes": 100},
+		Floors:         map[string]int64{"c13.exh.scopes_complete": 10, "c13.exh.sequences": 700000, "c13.rand.ops": 300000, "c13.rand.grew_past_256": 5, "c13.conc.histories": 250, "c13.conc.overlapping_calls": 50, "c13.grow.cells": 780, "classes": 100},
 		FloorsThorough: map[string]int64{"c13.exh.scopes_complete": 10, "c13.exh.sequences": 5000000, "c13.rand.ops": 10000000, "c13.conc.histories": 5000, "classes": 100},
 		Exhaustive:     func(r *result) bool { return false },
 		Assumptions:    []string{"'terminal' is PUBACK / PUBCOMP / PUBREL / SUBACK / UNSUBACK per queue as routed by service/process.go; an entry is releasable when its most recent acknowledgement is terminal", "Acked() is called from one goroutine at a time (it returns an internal slice), as the service does"},
